@@ -224,6 +224,32 @@ class Run:
         shutil.rmtree(d, ignore_errors=True)
         return mine
 
+    # ------------------------------------------------------------------ Apalache (unbounded safety of small integer modules)
+    def apalache_inductive(self, module, ind_inv="IndInv", ind_init="IndInit", implied=(), timeout=300):
+        """Discharge an inductive invariant with Apalache: Init => IndInv, IndInv /\\ Next => IndInv',
+        IndInv => each property in `implied`. A failure is a defect of the specification (Inconclusive), never a verdict."""
+        d = os.path.join(self.scratch, "apa-%s-%d" % (module, len(os.listdir(self.scratch))))
+        os.makedirs(d)
+        shutil.copy(os.path.join(SPEC, module + ".tla"), d)
+        steps = [("Init", ind_inv, 0), (ind_init, ind_inv, 1)] + [(ind_init, q, 0) for q in implied]
+        t0 = time.time()
+        for init, inv, length in steps:
+            cmd = ["timeout", str(timeout), "apalache-mc", "check", "--init=" + init, "--inv=" + inv, "--length=%d" % length,
+                   "--out-dir=" + os.path.join(d, "out"), module + ".tla"]
+            try:
+                p = subprocess.run(cmd, cwd=d, capture_output=True, text=True)
+            except FileNotFoundError:
+                self.notes.append("apalache-mc not available: inductive check of %s skipped" % module)
+                return False
+            if "The outcome is: NoError" not in p.stdout:
+                log(p.stdout[-3000:])
+                raise Inconclusive("Apalache did not discharge %s => %s (length %d) of %s" % (init, inv, length, module))
+        self.notes.append("Apalache: %s is inductive in %s and implies %s (%d obligations, %.0fs) - unbounded in chain length" % (
+            ind_inv, module, ", ".join(implied), len(steps), time.time() - t0))
+        self.model["runs"].append({"module": module, "tool": "apalache", "obligations": len(steps), "ok": True})
+        shutil.rmtree(d, ignore_errors=True)
+        return True
+
     # ------------------------------------------------------------------ strict (step-level) conformance
     def tlc_strict(self, module, trace, field, const, to_const=lambda v: v, selftest=None, timeout=1200):
         """Step-level trace validation of a tier-I module: every record of the recorded trace must be explained
